@@ -193,13 +193,14 @@ package reflection
 // ---------------------------------------------------------------------------------------------
 // Analysis (C04: what is analysed is the registered constructor value; C05/C07/C08: the declared dependencies are
 // exactly the parameters that invocation will resolve).
+// (a group field is resolved as the whole group whatever key it carries: ParamObjectBuilder.resolveFieldDependency#post[group_first])
 //@ func Analyzer.buildDependencies
 //@   safety[C15]
 //@   requires args: info != nil
 //@   ensures[C05,C07,C08,C04] one_dependency_per_parameter: len(result) == len(info.Parameters) && (forall i int :: 0 <= i && i < len(result) ==> result[i] != nil
-//@        && result[i].Key == info.Parameters[i].Key && result[i].Group == info.Parameters[i].Group && result[i].Optional == info.Parameters[i].Optional
+//@        && result[i].Key == ite(info.Parameters[i].Group != "", nil, info.Parameters[i].Key) && result[i].Group == info.Parameters[i].Group && result[i].Optional == info.Parameters[i].Optional
 //@        && result[i].Type == ite(info.Parameters[i].IsSlice && info.Parameters[i].Group != "" && info.Parameters[i].ElemType != nil, info.Parameters[i].ElemType, info.Parameters[i].Type))
 //@   loop 1
 //@     invariant built: len(deps) == idx && !isnil(deps) && (forall i int :: 0 <= i && i < idx ==> deps[i] != nil && fresh(deps[i]) && allocated(deps[i])
-//@        && deps[i].Key == info.Parameters[i].Key && deps[i].Group == info.Parameters[i].Group && deps[i].Optional == info.Parameters[i].Optional
+//@        && deps[i].Key == ite(info.Parameters[i].Group != "", nil, info.Parameters[i].Key) && deps[i].Group == info.Parameters[i].Group && deps[i].Optional == info.Parameters[i].Optional
 //@        && deps[i].Type == ite(info.Parameters[i].IsSlice && info.Parameters[i].Group != "" && info.Parameters[i].ElemType != nil, info.Parameters[i].ElemType, info.Parameters[i].Type))
